@@ -479,7 +479,7 @@ def stream(rep, exe, tier, seed, n, knobs, twins, tag, small_heap=None):
             jid = "%s%d" % (tag, done + j)
             batch.append((jid, p, args)); meta[jid] = (p, args, gs, None)
             if twins:
-                for tn, nu in (("a", src_gen.nu_name_depth), ("b", src_gen.nu_level)):
+                for tn, nu in (("a", src_gen.nu_name_depth), ("b", src_gen.nu_level), ("c", src_gen.nu_collide)):
                     q = src_gen.rename(p, nu)
                     batch.append((jid + tn, q, args)); meta[jid + tn] = (q, args, gs, jid)
         res = run_pairs(exe, batch)
@@ -691,6 +691,7 @@ def seed_corpus(rep, exe, gc_every=False):
         progs.append((name, p, args))
         progs.append((name + "_a", src_gen.rename(p, src_gen.nu_name_depth), args))
         progs.append((name + "_b", src_gen.rename(p, src_gen.nu_level), args))
+        progs.append((name + "_c", src_gen.rename(p, src_gen.nu_collide), args))
     res = run_pairs(exe, progs)
     st = dict(files=len(files), runs=len(progs), agree=0, disagree=0)
     for name, p, args in progs:
